@@ -36,6 +36,9 @@ type Step struct {
 	S      int    `json:"s,omitempty"` // which request stream (mod)
 	I      int    `json:"i,omitempty"` // which previously seen event id (mod) for resume
 	NoWait bool   `json:"nowait,omitempty"`
+	// Inject (resume, race variant): right after the server has read the stored events for this resume, the
+	// stream's handler is told to write one more message (the write overlaps replay and re-attachment).
+	Inject bool `json:"inject,omitempty"`
 }
 
 type Script struct {
@@ -82,7 +85,7 @@ func genScript(rt *rapid.T, race bool) Script {
 			if st.Kind == "cut" && rapid.IntRange(0, 3).Draw(rt, "finish_detached") == 0 {
 				s.Steps = append(s.Steps, Step{Kind: "finish", S: st.S})
 			}
-			s.Steps = append(s.Steps, Step{Kind: r, S: st.S, I: rapid.IntRange(0, 11).Draw(rt, "ri")})
+			s.Steps = append(s.Steps, Step{Kind: r, S: st.S, I: rapid.IntRange(0, 11).Draw(rt, "ri"), Inject: race && r == "resume" && rapid.Bool().Draw(rt, "inject")})
 		}
 	}
 	return s
@@ -94,6 +97,9 @@ type recStore struct {
 	yields     int
 	afterCalls atomic.Int64
 	purgeNext  atomic.Bool // the next After sees the store purged while its result is being consumed
+	// injectOnce, if set, is called once right after the next After has handed out its last item
+	injMu      sync.Mutex
+	injectOnce func()
 	mu         sync.Mutex
 	logs       map[string][][]byte // streamID -> payloads in append order
 }
@@ -124,6 +130,26 @@ func (r *recStore) Append(ctx context.Context, sess, stream string, data []byte)
 func (r *recStore) After(ctx context.Context, sess, stream string, index int) iter.Seq2[[]byte, error] {
 	r.afterCalls.Add(1)
 	seq := r.inner.After(ctx, sess, stream, index)
+	r.injMu.Lock()
+	inject := r.injectOnce
+	r.injectOnce = nil
+	r.injMu.Unlock()
+	if inject != nil {
+		return func(yield func([]byte, error) bool) {
+			for d, err := range seq {
+				if !yield(d, err) {
+					return
+				}
+			}
+			// The stored events have been read. A write to the same stream starts now and gets every
+			// chance to run before the caller goes on (in the correct code it has to wait for the stream
+			// lock the caller holds; nothing here blocks).
+			inject()
+			for i := 0; i < 3000; i++ {
+				runtime.Gosched()
+			}
+		}
+	}
 	if !r.purgeNext.CompareAndSwap(true, false) {
 		return seq
 	}
@@ -541,7 +567,18 @@ func runInBubble(s Script) (res vt.Result) {
 			if detachedWrites[sr] && !wasAttached {
 				nt = true
 			}
+			if st.Inject && !sr.finished && !wasAttached {
+				k := sr.k
+				sr.notes++
+				store.injMu.Lock()
+				store.injectOnce = func() { cmdCh(k) <- cmd{} }
+				store.injMu.Unlock()
+				res.Class("write_overlapping_resume")
+			}
 			ex := do("GET", "", map[string]string{"Last-Event-ID": fmt.Sprintf("%s_%d", sr.sid, idx)})
+			store.injMu.Lock()
+			store.injectOnce = nil
+			store.injMu.Unlock()
 			if ex == nil {
 				res.Failf("step %d: GET produced no exchange", i)
 				return finish(res, s, &desc, nt)
